@@ -78,7 +78,11 @@ def rule_a(repo, chk):
     ok = (src_ok or v0 == 'data') and all(norm(c.func.value) == v0 for c in calls_in(save, 'pop')) and len(d0) <= 1 and \
         not [x for x in own_nodes(save) if isinstance(x, (ast.Subscript, ast.Attribute)) and isinstance(x.ctx, (ast.Store, ast.Del)) and 'self.__dict__' in norm(x)]
     chk.ob('C20.a', ok, save, 'save() derives the data from the instance dictionary and only reads it (a copy is what keys are popped from)')
-    ok = len(comp) == 1 and not other_filters and norm(comp[0].value.key) == "k.lstrip('_')" and norm(comp[0].value.value) == 'v'
+    def kv(cst):
+        t = cst.value.generators[0].target
+        return (t.elts[0].id, t.elts[1].id) if isinstance(t, ast.Tuple) and len(t.elts) == 2 and all(isinstance(e, ast.Name) for e in t.elts) else (None, None)
+    ok = len(comp) == 1 and not other_filters and kv(comp[0])[0] is not None and norm(comp[0].value.key) == "%s.lstrip('_')" % kv(comp[0])[0] \
+        and norm(comp[0].value.value) == kv(comp[0])[1]
     chk.ob('C20.a', ok, save, 'every entry is written under its name without leading underscores; nothing is filtered by value (falsy settings such as '
            'smart_sys_path=False survive)', (short(comp[0]) if comp else '') + (' filters: %s' % other_filters if other_filters else ''))
     dump = calls_in(save, 'dump')
